@@ -79,11 +79,14 @@ pub mod rule {
                 final(db).same_frame(old(db)),
                 forall|t: TableId| final(db).table_len(t) == old(db).table_len(t),
                 forall|ts: Seq<TableId>| final(db).canonical(ts) == old(db).canonical(ts),
+                final(db).ran() == old(db).ran(),
         { unimplemented!() }
 
         #[verifier::external_body]
         pub fn add_rules_from_cached(&self, rsb: &mut RuleSetBuilder, mid_ts: Timestamp, cached_plan: &CachedPlanInfo)
-            ensures final(rsb).qlog() == old(rsb).qlog().push(QCall { query: *self, mid_ts: mid_ts, plan: *cached_plan }),
+            ensures
+                final(rsb).qlog() == old(rsb).qlog().push(QCall { query: *self, mid_ts: mid_ts, plan: *cached_plan }),
+                final(rsb).mids() == old(rsb).mids().push(mid_ts),
         { unimplemented!() }
     }
     }
@@ -96,6 +99,12 @@ pub mod rule {
 //@ item egglog-reports/src/lib.rs struct IterationReport
 
 // ---------------- specification ------------------------------------------------------------------
+/// C03: the timestamp rule i's delta variants must be built with: the rule's PREVIOUS last_run_at
+/// (or this run's timestamp if the same rule already occurred earlier in `rules`)
+pub open spec fn expected_mid(info0: DenseIdMapWithReuse<RuleId, RuleInfo>, rules: Seq<RuleId>, next_ts: Timestamp, i: int) -> Timestamp {
+    if exists|j: int| 0 <= j < i && rules[j] == rules[i] { next_ts } else { info0.at(rules[i]).last_run_at }
+}
+
 pub open spec fn func_tables(m: DenseIdMap<FunctionId, FunctionInfo>) -> Seq<TableId> {
     Seq::new(m.view().len(), |i: int| m.view()[i].1.table)
 }
@@ -132,6 +141,11 @@ impl EGraph {
         final(db).uf_len() >= old(db).uf_len(),
         // canonicity survives unless the union-find grew; an Err (plan building failed) changes nothing
         forall|ts: Seq<TableId>| old(db).canonical(ts) && (r is Err || final(db).uf_len() == old(db).uf_len()) ==> final(db).canonical(ts),
+        // C03: the rule set that was run contains, for rule i, the delta variants built with the rule's previous last_run_at
+        r is Ok ==> final(db).ran().len() == old(db).ran().len() + 1
+            && final(db).ran().last().len() == rules@.len()
+            && forall|i: int| 0 <= i < rules@.len() ==> #[trigger] final(db).ran().last()[i] == expected_mid(*old(rule_info), rules@, next_ts, i),
+        r is Err ==> final(db).ran() == old(db).ran(),
         // C03: every rule that was run is stamped with the timestamp of this run
         r is Ok ==> forall|i: int| 0 <= i < rules@.len() ==> (#[trigger] final(rule_info).at(rules@[i])).last_run_at == next_ts,
         forall|k: RuleId| (forall|i: int| 0 <= i < rules@.len() ==> rules@[i] != k) ==> final(rule_info).at(k) == old(rule_info).at(k),
@@ -142,6 +156,7 @@ impl EGraph {
             forall|ts: Seq<TableId>| db.canonical(ts) == old(db).canonical(ts),
             forall|k: RuleId| (forall|i: int| 0 <= i < rules@.len() ==> rules@[i] != k) ==> rule_info.at(k) == old(rule_info).at(k),
             forall|k: RuleId| (#[trigger] rule_info.at(k)).last_run_at == old(rule_info).at(k).last_run_at,
+            db.ran() == old(db).ran(),
             forall|i: int| 0 <= i < __it0.index@ ==> (#[trigger] rule_info.at(rules@[i])).cached_plan is Some,
 //@ at before-loop 1
     let ghost info1 = *rule_info;
@@ -150,6 +165,9 @@ impl EGraph {
             forall|k: RuleId| (forall|i: int| 0 <= i < rules@.len() ==> rules@[i] != k) ==> rule_info.at(k) == old(rule_info).at(k),
             forall|i: int| 0 <= i < rules@.len() ==> (#[trigger] rule_info.at(rules@[i])).cached_plan is Some,
             forall|i: int| 0 <= i < __it1.index@ ==> (#[trigger] rule_info.at(rules@[i])).last_run_at == next_ts,
+            forall|k: RuleId| (forall|j: int| 0 <= j < __it1.index@ ==> rules@[j] != k) ==> (#[trigger] rule_info.at(k)).last_run_at == old(rule_info).at(k).last_run_at,
+            rsb.mids().len() == __it1.index@,
+            forall|i: int| 0 <= i < __it1.index@ ==> #[trigger] rsb.mids()[i] == expected_mid(*old(rule_info), rules@, next_ts, i),
 //@ end-fn
 
 //@ impl egglog-bridge/src/lib.rs impl EGraph
